@@ -214,6 +214,16 @@ func c09Scenarios(c *Ctx) []crashScenario {
 		}, Run: func(dir string, env []string) (string, int) {
 			return runIn(dir, env, c.Lfs, "pull")
 		}},
+		{Name: "fetch-reference-link", Setup: func(dir string, srv *fpServer, r *Rng) error {
+			return c09ReferenceSetup(c, dir, srv, r, commitPointers, false)
+		}, Run: func(dir string, env []string) (string, int) {
+			return runIn(dir, env, c.Lfs, "fetch")
+		}},
+		{Name: "fetch-reference-copy", Setup: func(dir string, srv *fpServer, r *Rng) error {
+			return c09ReferenceSetup(c, dir, srv, r, commitPointers, true)
+		}, Run: func(dir string, env []string) (string, int) {
+			return runIn(dir, env, c.Lfs, "fetch")
+		}},
 		{Name: "migrate-import", Setup: func(dir string, srv *fpServer, r *Rng) error {
 			for i := 0; i < 2; i++ {
 				os.WriteFile(filepath.Join(dir, fmt.Sprintf("m%d.big", i)), r.Bytes(Pick(r, []int{3000, 80000})), 0o644)
@@ -227,7 +237,50 @@ func c09Scenarios(c *Ctx) []crashScenario {
 	}
 }
 
+// c09ReferenceSetup: the objects of the commit live in a reference store (objects/info/alternates).
+// copy=false: the store is on the same file system, objects arrive by hard link.
+// copy=true: the hard link cannot succeed — the store is on another file system (/dev/shm) when there
+// is one, and in any case a stale file of the wrong size already sits at every object path (EEXIST) —
+// so LinkOrCopy falls back to CopyFileContents (temp file + rename).
+var c09RefDirs []string
+
+func c09ReferenceSetup(c *Ctx, dir string, srv *fpServer, r *Rng, commitPointers func(string, *fpServer, *Rng, int, bool) ([][]byte, error), copy bool) error {
+	gitIn(dir, nil, "config", "lfs.url", srv.srv.URL)
+	cs, err := commitPointers(dir, nil, r, 3, false)
+	if err != nil {
+		return err
+	}
+	refRoot := dir + "-refstore"
+	if copy {
+		if fi, err := os.Stat("/dev/shm"); err == nil && fi.IsDir() {
+			if d, err := os.MkdirTemp("/dev/shm", "verif-c09-ref-"); err == nil {
+				refRoot = d
+			}
+		}
+	}
+	c09RefDirs = append(c09RefDirs, refRoot)
+	os.MkdirAll(filepath.Join(refRoot, "objects"), 0o755) // the alternate object directory itself
+	for _, b := range cs {
+		oid := sha(b)
+		p := filepath.Join(refRoot, "lfs", "objects", oid[0:2], oid[2:4], oid)
+		os.MkdirAll(filepath.Dir(p), 0o755)
+		os.WriteFile(p, b, 0o644)
+		if copy {
+			q := filepath.Join(dir, ".git", "lfs", "objects", oid[0:2], oid[2:4], oid)
+			os.MkdirAll(filepath.Dir(q), 0o755)
+			os.WriteFile(q, b[:len(b)/2], 0o644) // stale, wrong-sized file: os.Link fails with EEXIST
+		}
+	}
+	os.MkdirAll(filepath.Join(dir, ".git", "objects", "info"), 0o755)
+	return os.WriteFile(filepath.Join(dir, ".git", "objects", "info", "alternates"), []byte(filepath.Join(refRoot, "objects")+"\n"), 0o644)
+}
+
 func c09(c *Ctx) {
+	defer func() {
+		for _, d := range c09RefDirs {
+			os.RemoveAll(d)
+		}
+	}()
 	r := NewRng(c.Seed ^ 0xC09)
 	c.R.Rule = "cases = (scenario, crash point, occurrence): every reached occurrence of every storage-mutating step (temp-file creation, each write burst of a copy, rename into place, .part hand-over, link, move to bad/, unlink) in the scenarios, each run with VERIF_CRASH=<point>:<n> (SIGKILL); non-trivial = crash point between the first write and the final rename/unlink; distinct = different (scenario, point, occurrence)"
 	scen := c09Scenarios(c)
@@ -374,6 +427,9 @@ func c09ModelCheck(c *Ctx, name, dir, trace string, preObjs map[string]string) {
 		}
 		op := strings.TrimPrefix(f[0], "fs.")
 		area := func(p string) string {
+			if ap, err := filepath.Abs(p); err == nil && !strings.HasPrefix(ap, filepath.Join(dir, ".git", "lfs")+"/") {
+				return "ext" // a file outside this repository's LFS storage (reference store, working tree)
+			}
 			for _, a := range []string{"objects", "incomplete", "tmp", "bad"} {
 				if strings.Contains(p, "/lfs/"+a+"/") {
 					return a
@@ -395,6 +451,10 @@ func c09ModelCheck(c *Ctx, name, dir, trace string, preObjs map[string]string) {
 				content = sha(b)
 			}
 			ops = append(ops, fmt.Sprintf("%s:%s:%s:%s:%s:%s", op, area(f[1]), filepath.Base(f[1]), area(f[2]), filepath.Base(f[2]), content))
+		case "linkfail": // the hard link announced by the previous line did not happen
+			if n := len(ops); n > 0 && strings.HasPrefix(ops[n-1], "link:") {
+				ops = ops[:n-1]
+			}
 		case "unlink":
 			ops = append(ops, "unlink:"+area(f[1])+":"+filepath.Base(f[1]))
 		}
